@@ -53,6 +53,18 @@ func (EvB) EventTypeName() string { return "ev.b.v1" }
 type cfg struct {
 	Perm    []int `json:"options_in_order"`
 	Setters int   `json:"setters"` // bit0 SetBeforePublishHook, bit1 SetAfterPublishHook, bit2 SetPersistenceErrorHandler
+	// Slow: the store's Append takes longer than the configured persistence timeout
+	// (1 ms) and, like MemoryStore, does not look at its context: the append still
+	// succeeds, so the publish must still be recorded before it is delivered.
+	Slow bool `json:"slow_store_short_timeout"`
+}
+
+// slowStore delays every Append and ignores its context.
+type slowStore struct{ *eventbus.MemoryStore }
+
+func (s slowStore) Append(ctx context.Context, e *eventbus.Event) (eventbus.Offset, error) {
+	time.Sleep(4 * time.Millisecond)
+	return s.MemoryStore.Append(context.Background(), e)
 }
 
 func (c cfg) String() string {
@@ -63,6 +75,9 @@ func (c cfg) String() string {
 	s := "New(" + strings.Join(p, ", ") + ")"
 	if c.Setters != 0 {
 		s += fmt.Sprintf(" setters=%03b", c.Setters)
+	}
+	if c.Slow {
+		s += " slow store, 1ms persistence timeout"
 	}
 	return s
 }
@@ -84,10 +99,27 @@ func (c cfg) shape() string {
 	}
 	sort.Strings(before)
 	sort.Strings(after)
-	return fmt.Sprintf("options before WithStore {%s}, after {%s}, setters=%03b", strings.Join(before, ","), strings.Join(after, ","), c.Setters)
+	slow := ""
+	if c.Slow {
+		slow = ", append slower than the persistence timeout"
+	}
+	return fmt.Sprintf("options before WithStore {%s}, after {%s}, setters=%03b%s", strings.Join(before, ","), strings.Join(after, ","), c.Setters, slow)
 }
 
+// runCfg runs one configuration under the controlled scheduler (goroutines the bus may
+// start become tasks and are joined; a blocked publish is a detected deadlock).
 func runCfg(c cfg) (out []string) {
+	res := vrt.Run(vrt.Config{}, func() {
+		out = runCfgBody(c)
+		vrt.Join()
+	})
+	if res.Status != vrt.StatusOK {
+		out = append(out, "publishing blocked for ever or crashed: "+res.Status.String())
+	}
+	return out
+}
+
+func runCfgBody(c cfg) (out []string) {
 	bad := func(f string, a ...any) { out = append(out, fmt.Sprintf(f, a...)) }
 	ms := eventbus.NewMemoryStore()
 	hookCalls := map[string]int{}
@@ -95,7 +127,11 @@ func runCfg(c cfg) (out []string) {
 	for _, o := range c.Perm {
 		switch o {
 		case 0:
-			opts = append(opts, eventbus.WithStore(ms))
+			if c.Slow {
+				opts = append(opts, eventbus.WithStore(slowStore{ms}))
+			} else {
+				opts = append(opts, eventbus.WithStore(ms))
+			}
 		case 1:
 			opts = append(opts, eventbus.WithBeforePublish(func(reflect.Type, any) { hookCalls["before"]++ }))
 		case 2:
@@ -111,7 +147,11 @@ func runCfg(c cfg) (out []string) {
 		case 7:
 			opts = append(opts, eventbus.WithAfterPublish(func(reflect.Type, any) { hookCalls["after"]++ }))
 		case 8:
-			opts = append(opts, eventbus.WithPersistenceTimeout(time.Hour))
+			if c.Slow {
+				opts = append(opts, eventbus.WithPersistenceTimeout(time.Millisecond))
+			} else {
+				opts = append(opts, eventbus.WithPersistenceTimeout(time.Hour))
+			}
 		}
 	}
 	bus := eventbus.New(opts...)
@@ -231,6 +271,10 @@ func configs(thorough bool) []cfg {
 		}
 	}
 	subsets(0, nil)
+	// an append that outlives the persistence timeout but succeeds
+	for _, p := range [][]int{{0, 8}, {8, 0}, {0, 8, 6}, {2, 0, 8}} {
+		l = append(l, cfg{Perm: p, Slow: true})
+	}
 	// legacy setters after construction, on a few option orders
 	for s := 1; s < 8; s++ {
 		for _, p := range [][]int{{0}, {0, 2}, {2, 0}, {1, 0, 3}, {0, 4}} {
@@ -494,11 +538,16 @@ func run(c *h.Check) {
 		}
 		c.Count("evaluations", 1)
 		c.Count("nontrivial", 1)
-		ms := eventbus.NewMemoryStore()
-		bus := eventbus.New(eventbus.WithStore(ms))
-		// on a non-empty log too
-		eventbus.Publish(bus, EvA{0, "pre"})
-		for _, msg := range v.run(bus, ms) {
+		var msgs []string
+		vrt.Run(vrt.Config{}, func() {
+			ms := eventbus.NewMemoryStore()
+			bus := eventbus.New(eventbus.WithStore(ms))
+			// on a non-empty log too
+			eventbus.Publish(bus, EvA{0, "pre"})
+			msgs = v.run(bus, ms)
+			vrt.Join()
+		})
+		for _, msg := range msgs {
 			c.Violate("value", "value "+v.name+": "+stripNum(msg), msg, map[string]any{"value": v.name})
 		}
 	}
